@@ -940,7 +940,8 @@ def apply_to_model(sess):
         for name, sec in other.items():
             if not sec["data"]:
                 continue
-            model.add_unit(name, tokens_from_section(world.isa, sec, f"s{sess.index}o{oi}x{name}", md), name=f"n{sess.index}o{oi}i{c['inv']}{name}")
+            # (token ids carry the invocation: a scope registration is invoked once per block)
+            model.add_unit(name, tokens_from_section(world.isa, sec, f"s{sess.index}o{oi}i{c['inv']}x{name}", md), name=f"n{sess.index}o{oi}i{c['inv']}{name}")
     apply_retargets(sess)
 
 
